@@ -44,6 +44,11 @@ func c02Walk(s string, n d2ast.Node, parent d2ast.Range, depth int) {
 		// recorded finding: an unterminated ${ at the end of the input extends past the string node holding it
 		known = r.End.Byte == len(s) && r.Start.Byte <= len(s) && !strings.Contains(s[r.Start.Byte:], "}")
 	}
+	if _, ok := n.(*d2ast.Substitution); ok && !known && nd.Known("C02-string-range-ends-before-substitution") {
+		// recorded finding: the range of an unquoted string ends at its last plain character:
+		// a substitution at its end starts inside the string's range and ends after it
+		known = parent.Start.Byte <= r.Start.Byte && r.Start.Byte <= parent.End.Byte && r.End.Byte > parent.End.Byte
+	}
 	if !known {
 		nd.Assert(parent.Start.Byte <= r.Start.Byte && r.End.Byte <= parent.End.Byte, "node range nests inside its parent's range")
 	}
@@ -183,6 +188,11 @@ func c02WalkU(s string, bs []c02Bound, n d2ast.Node, parent d2ast.Range, depth i
 	known := false
 	if _, ok := n.(*d2ast.Substitution); ok && nd.Known("C02-unterminated-substitution-range") {
 		known = en.byteOff == len(s) && !strings.Contains(s[st.byteOff:], "}")
+	}
+	if _, ok := n.(*d2ast.Substitution); ok && !known && nd.Known("C02-string-range-ends-before-substitution") {
+		// recorded finding: the range of an unquoted string ends at its last plain character:
+		// a substitution at its end starts inside the string's range and ends after it
+		known = parent.Start.Byte <= r.Start.Byte && r.Start.Byte <= parent.End.Byte && r.End.Byte > parent.End.Byte
 	}
 	if _, ok := n.(*d2ast.Array); ok {
 		if nd.Known("C02-array-range-includes-lookahead") {
